@@ -581,7 +581,7 @@ func (w *_nodeRepr) AsString() (string, error) {
 		if err != nil {
 			return "", err
 		}
-		if mapped := stg[s]; mapped != "" {
+		if mapped, ok := stg[s]; ok {
 			return mapped, nil
 		}
 		members := w.schemaType.(*schema.TypeEnum).Members()
